@@ -325,6 +325,8 @@ where
     where
         Chunk: source::Chunk<'source>,
     {
+        #[cfg(all(logos_verif, feature = "std"))]
+        verif_trace::record(offset, Chunk::SIZE);
         self.source.read(offset)
     }
 
@@ -354,5 +356,29 @@ where
     #[inline]
     fn is_prefix(&self) -> bool {
         self.is_prefix
+    }
+}
+
+/// Verification hook (only with `--cfg logos_verif`): log of `(offset, size)` of every
+/// `LexerInternal::read` issued by generated code on the current thread.
+#[cfg(all(logos_verif, feature = "std"))]
+#[doc(hidden)]
+pub mod verif_trace {
+    extern crate std;
+    use std::cell::RefCell;
+    use std::vec::Vec;
+
+    std::thread_local! {
+        static READS: RefCell<Vec<(usize, usize)>> = const { RefCell::new(Vec::new()) };
+    }
+
+    #[inline]
+    pub fn record(offset: usize, size: usize) {
+        READS.with(|r| r.borrow_mut().push((offset, size)));
+    }
+
+    /// Returns and clears the log.
+    pub fn take() -> Vec<(usize, usize)> {
+        READS.with(|r| core::mem::take(&mut *r.borrow_mut()))
     }
 }
